@@ -176,7 +176,7 @@ def sys_leaves():
     L += [A.BytesInteger(3, signed=True, swapped=True), A.VarInt, A.ZigZag, A.Flag, A.Bytes(1), A.Bytes(3),
           A.PaddedString(4, "utf8"), A.PaddedString(6, "utf_16_le"), A.PascalString(A.Alias("Byte"), "utf8"), A.PascalString(A.VarInt, "utf_16_be"),
           A.CString("utf8"), A.CString("utf_16_le"), A.Const(b"\x01\x02\x03"), A.Const(7, A.Alias("Int16ub")),
-          A.Enum(A.Alias("Byte"), one=1, two=2), A.FlagsEnum(A.Alias("Byte"), a=1, b=2, c=0x80), A.Mapping(A.Alias("Byte"), [("x", 0), ("y", 1)]),
+          A.Enum(A.Alias("Byte"), one=1, two=2), A.FlagsEnum(A.Alias("Byte"), a=1, b=2, c=0x80), A.FlagsEnum(A.Alias("Byte"), r=1, w=2, rw=3, x=4, none=0), A.Mapping(A.Alias("Byte"), [("x", 0), ("y", 1)]),
           A.Default(A.Alias("Byte"), 7), A.Default(A.Alias("Int16ub"), 0x8000), A.OneOf(A.Alias("Byte"), [0, 1, 2, 3]),
           A.Struct(A.Renamed("n", A.Alias("Byte")), A.Renamed("d", A.Bytes(A.T("n")))),
           A.Struct(A.Renamed("n", A.Rebuild(A.Alias("Byte"), A.Func("len", A.T("d")))), A.Renamed("d", A.Bytes(A.T("n")))),
